@@ -234,7 +234,7 @@ def run(ctx: Check):
     ctx.rule = ("cases = (circuit connecting callers through Connect / simultaneous(), input valuation incl. data); "
                 "non-trivial = circuits in which a merged transaction ran in some valuation (w writers x r readers, "
                 "chained Connects, simultaneous transactions / methods, callers with other randomly-ready callees)")
-    run_simul(ctx, "C13", gen, monitor, directed(), witness_specs, nontrivial, n_quick=50, n_thorough=2000,
+    run_simul(ctx, "C13", gen, monitor, directed(), witness_specs, nontrivial, n_quick=44, n_thorough=2000,
               descriptor=descriptor)
 
 
